@@ -99,7 +99,7 @@ pub fn initial_docs(cfg: &GenCfg, rng: &mut Rng) -> Vec<Doc> {
             uri = format!("untitled:Untitled-{i}");
         }
         let _ = rng;
-        docs.push(Doc { uri, path, lang, open: false, text: String::new(), version: 0, disk: None, history: vec![], known_to_server: false, last_change_step: 0 });
+        docs.push(Doc { uri, path, lang, open: false, text: String::new(), version: 0, disk: None, history: vec![], known_to_server: false, last_change_step: 0, dict_tainted: false });
     }
     docs
 }
